@@ -15,7 +15,7 @@ RULE = (
 )
 REQUIRED = ["rt_bipartite_str_ids", "rt_bipartite_int_ids", "rt_strings", "rt_species_graph",
             "export_bipartite_checked", "export_species_checked", "from_str_checked",
-            "shared_pair_networks", "multi_digit_coeff_networks"]
+            "shared_pair_networks", "multi_digit_coeff_networks", "networks_with_id_equal_to_species_label"]
 ASSUMPTIONS = [
     "labels follow the documented grammar; rule labels contain no whitespace",
     "species-graph round trip only claimed for networks whose reactions all have both sides; rules not compared there",
@@ -276,6 +276,10 @@ def check_from_str(ctx):
             ctx.violation("from_str", {"text": txt}, f"RXNSide.from_str({txt!r}) = {got} want {want}")
 
 
+# rule labels as users write them: identifiers, EC numbers, SMARTS-like templates with atom lists (no blanks, no '|')
+RULE_TOKENS = ["EC:1.1.1.1", "[C,N:1]=[O:2]", "k(fwd);rev", "a,b", "step-2/alt", "R#3", "x;y,z", "[C:1][O;H1:2]"]
+
+
 def run(ctx):
     rng = ctx.rng
     check_from_str(ctx)
@@ -306,13 +310,18 @@ def run(ctx):
             break
         net = W.random_network(rng, n_species=rng.randint(2, 8), n_rxn=rng.randint(1, 10),
                                max_coeff=rng.choice([1, 3, 3, 12, 120]),
-                               rules=["r", "R1", "k_2", "hydrolysis"][: rng.randint(1, 4)],
+                               rules=rng.choice([["r", "R1", "k_2", "hydrolysis"], RULE_TOKENS])[: rng.randint(1, 4)],
                                p_dup=0.15)
         ids = None
+        sp = W.species_of(net)
         if rng.random() < 0.5:
             pool = [f"e{j}" for j in range(len(net))] + [f"r_{j + 1}" for j in range(len(net))] + ["10", "a-b"]
+            if rng.random() < 0.4:
+                pool += sp   # reactions named like a species (e.g. after their enzyme, which also takes part)
+                ctx.count("networks_with_ids_from_species_names")
             ids = rng.sample(pool, len(net))
-        sp = W.species_of(net)
+            if set(ids) & set(sp):
+                ctx.count("networks_with_id_equal_to_species_label")
         mol = {s: rng.choice(["CCO", 17, "mol_" + s]) for s in sp if rng.random() < 0.4}
         check_network(ctx, net, ids=ids, mol=mol, tag="random")
         ctx.count("random_networks")
